@@ -42,6 +42,8 @@ func (idx *hintFileIndex) get(keyhash uint64, key string) (item *HintItem, err e
 	}
 	reader.fd.Seek(offset, 0)
 	reader.rbuf.Reset(reader.fd)
+	// next() stops at indexOffset, counted from reader.offset
+	reader.offset = offset
 	defer reader.fd.Close()
 	var it *HintItem
 	for {
